@@ -33,6 +33,15 @@ def arg_name():
     return n
 
 
+def _avoid_arg_names_in(node: ast.AST):
+    "Make sure `arg_name` never returns a name that is already used somewhere in `node`"
+    global argument_var_counter
+    for n in ast.walk(node):
+        name = n.id if isinstance(n, ast.Name) else n.arg if isinstance(n, ast.arg) else ""
+        if name.startswith("arg_") and name[4:].isdecimal():
+            argument_var_counter = max(argument_var_counter, int(name[4:]) + 1)
+
+
 def make_args_unique(a: ast.Lambda) -> ast.Lambda:
     """
     Replaces the lambda with a new lambda, with unique arguments names
@@ -156,6 +165,18 @@ class simplify_chained_calls(FuncADLNodeTransformer):
 
     def __init__(self):
         self._arg_stack = argument_stack()
+        self._visit_depth = 0
+
+    def visit(self, node: ast.AST):
+        # The names we invent for the arguments of new lambdas must not be names the query
+        # already uses - otherwise one of its variables ends up bound by the wrong lambda.
+        if self._visit_depth == 0:
+            _avoid_arg_names_in(node)
+        self._visit_depth += 1
+        try:
+            return super().visit(node)
+        finally:
+            self._visit_depth -= 1
 
     def visit_Select_of_Select(self, parent: ast.Call, selection: ast.Lambda):
         r"""
